@@ -310,7 +310,8 @@ def drive_test(case):
     import testtools
     from testtools.assertions import assert_that
     from testtools.content import text_content
-    from testtools.testcase import _ExpectedFailure, _UnexpectedSuccess
+    from ..tabs.handlers import signal_classes
+    _ExpectedFailure, _UnexpectedSuccess = signal_classes()      # found through expectFailure, not by their private names
     from testtools.testresult.doubles import ExtendedTestResult
     ran = []          # one entry per user function that was entered: [did statement k raise ...]
     done = []         # how many of them have finished
